@@ -62,7 +62,7 @@ PROPS = {
         "explanation": "totality theorems on the lexer/parser model + differential runs (token streams, parsed-program dumps, error lines) + recover/watchdog oracle on Parse",
     },
     "C04": {
-        "level": "translation_validation",
+        "level": "proof",
         "cone": ["model/Value.v", "model/Eval.v", "proofs/EvalProofs.v", "props/C04.v"],
         "trusted_base": COMMON_TB + [
             "model/Eval.v + model/Value.v transcribe compiler.go, helper_context.go, partial_helper.go and helpers/content; reflect is modelled by case analysis on the value universe (29 kinds of the shared family), not verified",
@@ -73,7 +73,7 @@ PROPS = {
         "explanation": "no-panic theorem on the evaluator model + exhaustive kind matrices run on the implementation under recover/watchdog and re-evaluated by the model",
     },
     "C05": {
-        "level": "translation_validation",
+        "level": "proof",
         "cone": ["model/Eval.v", "proofs/EvalProofs.v", "props/C05.v"],
         "trusted_base": COMMON_TB + [
             "model/Eval.v + model/Value.v transcribe compiler.go, helper_context.go, partial_helper.go and helpers/content (reflect modelled by case analysis on the shared value family); tied to the code by the render correspondence",
@@ -82,7 +82,7 @@ PROPS = {
         "explanation": "theorems about error propagation in the evaluator model + failing-helper placements run on the implementation (invoked-and-failed oracle) and re-evaluated by the model",
     },
     "C07": {
-        "level": "translation_validation",
+        "level": "proof",
         "cone": ["model/Value.v", "model/Eval.v", "proofs/EvalProofs.v", "props/C07.v"],
         "trusted_base": COMMON_TB + [
             "model/Eval.v + model/Value.v transcribe compiler.go, helper_context.go, partial_helper.go and helpers/content (reflect modelled by case analysis on the shared value family); tied to the code by the render correspondence",
@@ -126,7 +126,7 @@ PROPS = {
         "explanation": "frame theorems on the model (bindings of pre-existing contexts unchanged by Set on a fresh child, cur restored) + generated scope nestings judged against an environment-chain reference",
     },
     "C16": {
-        "level": "translation_validation", "cone": ["model/Eval.v", "proofs/EvalProofs.v", "props/C16.v"],
+        "level": "proof", "cone": ["model/Eval.v", "proofs/EvalProofs.v", "props/C16.v"],
         "trusted_base": COMMON_TB + ["model/Eval.v + model/Ctx.v transcribe the evaluator's scope handling (c.ctx swapping with deferred restore, New(), the data copy in for / index-callee / chained calls, BlockWith, contentFor closures, partial) ; tied to the code by the render correspondence"], "assumptions": ["return inside a for body ends the iteration, not the function (established by the existing tests); the property's quantifier has no loops in function bodies"],
         "explanation": "theorems about user_call on the model (arguments evaluated in the caller scope, fresh scope, unwrapped return value) + generated decision-chain functions judged against a Go reference",
     },
